@@ -291,4 +291,334 @@ theorem wrapLoop_spdel (W ind : Nat) (hW : 1 ≤ W) : ∀ (fuel : Nat) (first : 
       · simp only [List.flatten_cons]
         exact hsp.trans (SpDel.append (SpDel.refl _) (ih false _ (by omega) (by simp)))
 
+/-! ### Chunks -/
+
+theorem splitChunks_flatten : ∀ s : Str, (splitChunks s).flatten = s
+  | [] => rfl
+  | c :: t => by
+    have ih := splitChunks_flatten t
+    unfold splitChunks
+    split
+    · rename_i d w r h
+      rw [h] at ih
+      split <;> simp_all
+    · simp [ih]
+
+theorem splitChunks_head (x : Char) (t : Str) : ∃ w r, splitChunks (x :: t) = (x :: w) :: r := by
+  unfold splitChunks
+  split
+  · split
+    · exact ⟨_, _, rfl⟩
+    · exact ⟨_, _, rfl⟩
+  · exact ⟨_, _, rfl⟩
+
+theorem headOk_splitChunks (s : Str) (h : ∀ x t, s = x :: t → x ≠ ' ') : HeadOk (splitChunks s) := by
+  intro c t hc
+  cases s with
+  | nil => simp [splitChunks] at hc
+  | cons x u =>
+    obtain ⟨w, r, hw⟩ := splitChunks_head x u
+    rw [hw] at hc
+    injection hc with h1 _
+    exact ⟨x, w, h1.symm, h x u rfl⟩
+
+/-- `textwrap.wrap` only deletes spaces: the contents of the lines, end to end, are the text with
+some spaces deleted (for every width ≥ 1 and every text that does not start with a space). -/
+theorem wrapContents_spdel (W ind : Nat) (hW : 1 ≤ W) (s : Str) (h : ∀ x t, s = x :: t → x ≠ ' ') :
+    SpDel s (wrapContents W ind s).flatten := by
+  have := wrapLoop_spdel W ind hW (measure (splitChunks s) + 1) true (splitChunks s) (by omega)
+    (fun _ => headOk_splitChunks s h)
+  rwa [splitChunks_flatten] at this
+
+theorem SpDel.mem {s t : Str} (h : SpDel s t) : ∀ c ∈ t, c ∈ s := by
+  induction h with
+  | nil => simp
+  | keep x _ ih => intro c hc; simp at hc ⊢; rcases hc with rfl | hc; exact .inl rfl; exact .inr (ih c hc)
+  | del _ ih => intro c hc; exact List.mem_cons_of_mem _ (ih c hc)
+
+/-! ### Tags -/
+
+theorem tagOpen_eq : tagOpen = ['<','d','e','t','a','i','l','s','>','<','s','u','m','m','a','r','y','>'] := by decide
+theorem tagMid_eq : tagMid = ['<','/','s','u','m','m','a','r','y','>'] := by decide
+theorem tagClose_eq : tagClose = ['<','/','d','e','t','a','i','l','s','>'] := by decide
+theorem tagBr_eq : tagBr = ['<','b','r','>'] := by decide
+theorem imported_eq : imported = ['_','i','m','p','o','r','t','e','d','_'] := by decide
+
+theorem stripGo_append (a b : Str) (h : '<' ∉ a) : stripGo false (a ++ b) = a ++ stripGo false b := by
+  induction a with
+  | nil => rfl
+  | cons c t ih =>
+    simp only [List.mem_cons, not_or] at h
+    have hc : c ≠ '<' := fun e => h.1 e.symm
+    simp [stripGo, hc, ih h.2]
+
+theorem stripGo_open (b : Str) : stripGo false (tagOpen ++ b) = stripGo false b := by simp [tagOpen_eq, stripGo]
+theorem stripGo_mid (b : Str) : stripGo false (tagMid ++ b) = stripGo false b := by simp [tagMid_eq, stripGo]
+theorem stripGo_close : stripGo false tagClose = [] := by simp [tagClose_eq, stripGo]
+theorem stripGo_br (b : Str) : stripGo false (tagBr ++ b) = stripGo false b := by simp [tagBr_eq, stripGo]
+
+theorem stripGo_joinBr : ∀ (lines : List Str) (rest : Str), (∀ l ∈ lines, '<' ∉ l) →
+    stripGo false (joinWith tagBr lines ++ rest) = lines.flatten ++ stripGo false rest
+  | [], rest, _ => rfl
+  | [a], rest, h => by simp [joinWith, stripGo_append a rest (h a (by simp))]
+  | a :: b :: t, rest, h => by
+    have ih := stripGo_joinBr (b :: t) rest (fun l hl => h l (List.mem_cons_of_mem _ hl))
+    simp only [joinWith, List.append_assoc]
+    rw [stripGo_append a _ (h a (by simp)), stripGo_br, ih]
+    simp
+
+/-- Deleting the tags of a wrapped cell gives the contents of the lines, end to end. -/
+theorem stripTags_wrapped (W : Nat) (s : Str) (hlt : ∀ l ∈ wrapContents W 3 s, '<' ∉ l) :
+    stripTags (tagOpen ++ ((wrapLines W 3 s).headD []).drop 3 ++ tagMid ++
+      joinWith tagBr (wrapLines W 3 s).tail ++ tagClose) = (wrapContents W 3 s).flatten := by
+  unfold stripTags wrapLines
+  cases hc : wrapContents W 3 s with
+  | nil => simp [stripGo_open, stripGo_mid, joinWith, stripGo_close, stripGo_append]
+  | cons l r =>
+    rw [hc] at hlt
+    simp only [List.headD_cons, List.tail_cons, List.append_assoc, List.flatten_cons]
+    rw [stripGo_open]
+    have : (List.replicate 3 ' ' ++ l).drop 3 = l := by simp
+    rw [this, stripGo_append l _ (hlt l (by simp)), stripGo_mid,
+      stripGo_joinBr r tagClose (fun x hx => hlt x (List.mem_cons_of_mem _ hx)), stripGo_close]
+    simp
+
+/-! ### The enumeration `", ".join(map(couple_to_string, spans))` of natural spans -/
+
+/-- A character of a number or of `a-b`. -/
+def wordCh (c : Char) : Bool := c.isDigit || c == '-'
+
+theorem wordCh_ne (c : Char) (h : wordCh c = true) : c ≠ ' ' ∧ c ≠ ',' ∧ c ≠ '<' ∧ c ≠ '_' := by
+  refine ⟨?_, ?_, ?_, ?_⟩ <;> (intro e; subst e; revert h; decide)
+
+def toSpan (p : Nat × Nat) : Span := (Int.ofNat p.1, Int.ofNat p.2)
+
+theorem digits_word (n : Nat) : ∀ c ∈ Nat.toDigits 10 n, wordCh c = true := by
+  intro c hc
+  simp [wordCh, Nat.isDigit_of_mem_toDigits (by decide) (by decide) hc]
+
+theorem couple_word (p : Nat × Nat) : ∀ c ∈ coupleToString (toSpan p), wordCh c = true := by
+  intro c hc
+  unfold coupleToString toSpan intStr at hc
+  split at hc
+  · exact digits_word _ c hc
+  · simp only [List.mem_append, List.mem_cons] at hc
+    rcases hc with h | rfl | h
+    · exact digits_word _ c h
+    · decide
+    · exact digits_word _ c h
+
+theorem couple_ne_nil (p : Nat × Nat) : coupleToString (toSpan p) ≠ [] := by
+  unfold coupleToString toSpan intStr
+  split
+  · exact Nat.toDigits_ne_nil
+  · simp
+
+theorem tokensAux_word (w : Str) (hw : ∀ c ∈ w, wordCh c = true) (cur rest : Str) :
+    tokensAux cur (w ++ rest) = tokensAux (cur ++ w) rest := by
+  induction w generalizing cur with
+  | nil => simp
+  | cons c t ih =>
+    have hc := wordCh_ne c (hw c (by simp))
+    have hs : isSep c = false := by simp [isSep, hc.1, hc.2.1]
+    simp only [List.cons_append, tokensAux, hs]
+    have := ih (fun x hx => hw x (List.mem_cons_of_mem _ hx)) (cur ++ [c])
+    simpa using this
+
+theorem okSp_word (w : Str) (hw : ∀ c ∈ w, wordCh c = true) (b : Bool) : okSp b w = true := by
+  induction w generalizing b with
+  | nil => rfl
+  | cons c t ih =>
+    have hc := wordCh_ne c (hw c (by simp))
+    simp only [okSp, hc.1, if_false]
+    exact ih (fun x hx => hw x (List.mem_cons_of_mem _ hx)) _
+
+theorem okSp_word_sep (w : Str) (hw : ∀ c ∈ w, wordCh c = true) (b : Bool) (r : Str) :
+    okSp b (w ++ ',' :: ' ' :: r) = okSp false r := by
+  induction w generalizing b with
+  | nil => simp [okSp]
+  | cons c t ih =>
+    have hc := wordCh_ne c (hw c (by simp))
+    simp only [List.cons_append, okSp, hc.1, if_false]
+    exact ih (fun x hx => hw x (List.mem_cons_of_mem _ hx)) _
+
+theorem join_okSp : ∀ (ps : List (Nat × Nat)) (b : Bool), okSp b (joinSpans (ps.map toSpan)) = true
+  | [], _ => rfl
+  | [a], b => by simpa [joinSpans] using okSp_word _ (couple_word a) b
+  | a :: c :: t, b => by
+    have ih := join_okSp (c :: t) false
+    simp only [List.map_cons, joinSpans] at ih ⊢
+    rw [okSp_word_sep _ (couple_word a)]
+    exact ih
+
+theorem join_tokens : ∀ ps : List (Nat × Nat),
+    tokens (joinSpans (ps.map toSpan)) = ps.map fun p => coupleToString (toSpan p)
+  | [] => rfl
+  | [a] => by
+    have := tokensAux_word _ (couple_word a) [] []
+    simp only [List.append_nil, List.nil_append] at this
+    have hne := couple_ne_nil a
+    simp [tokens, joinSpans, this, tokensAux, hne]
+  | a :: c :: t => by
+    have ih := join_tokens (c :: t)
+    have hne := couple_ne_nil a
+    simp only [List.map_cons, joinSpans, tokens] at ih ⊢
+    rw [tokensAux_word _ (couple_word a)]
+    simp only [List.nil_append, tokensAux, isSep, beq_self_eq_true, Bool.true_or, Bool.or_true, if_true,
+      List.isEmpty_nil]
+    simp [hne, ih]
+
+/-- The characters of the enumeration. -/
+theorem join_chars : ∀ (ps : List (Nat × Nat)) (c : Char), c ∈ joinSpans (ps.map toSpan) →
+    wordCh c = true ∨ c = ',' ∨ c = ' '
+  | [], c, h => by simp [joinSpans] at h
+  | [a], c, h => .inl (couple_word a c (by simpa [joinSpans] using h))
+  | a :: d :: t, c, h => by
+    simp only [List.map_cons, joinSpans, List.mem_append, List.mem_cons] at h
+    rcases h with h | rfl | rfl | h
+    · exact .inl (couple_word a c h)
+    · exact .inr (.inl rfl)
+    · exact .inr (.inr rfl)
+    · exact join_chars (d :: t) c (by simpa using h)
+
+theorem join_head (ps : List (Nat × Nat)) (x : Char) (t : Str) (h : joinSpans (ps.map toSpan) = x :: t) :
+    wordCh x = true := by
+  match ps, h with
+  | [a], h =>
+    simp only [List.map_cons, List.map_nil, joinSpans] at h
+    exact couple_word a x (by rw [h]; simp)
+  | a :: d :: t', h =>
+    simp only [List.map_cons, joinSpans] at h
+    have hne := couple_ne_nil a
+    cases hc : coupleToString (toSpan a) with
+    | nil => exact absurd hc hne
+    | cons y u =>
+      rw [hc] at h
+      injection h with h1 _
+      subst h1
+      exact couple_word a y (by rw [hc]; simp)
+
+theorem join_ne_nil (p : Nat × Nat) (ps : List (Nat × Nat)) : joinSpans ((p :: ps).map toSpan) ≠ [] := by
+  cases ps with
+  | nil => simpa [joinSpans] using couple_ne_nil p
+  | cons q t => simp [joinSpans]
+
+/-! ### Reading a number and a span back -/
+
+theorem readNat_digits (n : Nat) : readNat (Nat.toDigits 10 n) = some n := by
+  unfold readNat
+  have h1 : (Nat.toDigits 10 n).isEmpty = false := by
+    cases h : Nat.toDigits 10 n with
+    | nil => exact absurd h Nat.toDigits_ne_nil
+    | cons _ _ => rfl
+  have h2 : (Nat.toDigits 10 n).all Char.isDigit = true :=
+    List.all_eq_true.mpr fun c hc => Nat.isDigit_of_mem_toDigits (by decide) (by decide) hc
+  simp [h1, h2]
+
+theorem digits_no_hyphen (n : Nat) : ∀ c ∈ Nat.toDigits 10 n, (c != '-') = true := by
+  intro c hc
+  have := Nat.isDigit_of_mem_toDigits (b := 10) (by decide) (by decide) hc
+  have : c ≠ '-' := by intro e; subst e; revert this; decide
+  simpa using this
+
+theorem dropWhile_all {α} (p : α → Bool) (l : List α) (h : ∀ c ∈ l, p c = true) (r : List α) :
+    (l ++ r).dropWhile p = r.dropWhile p ∧ (l ++ r).takeWhile p = l ++ r.takeWhile p := by
+  induction l with
+  | nil => simp
+  | cons c t ih =>
+    have hc := h c (by simp)
+    have := ih (fun x hx => h x (List.mem_cons_of_mem _ hx))
+    simp [List.dropWhile_cons, List.takeWhile_cons, hc, this]
+
+theorem readSpan_couple (p : Nat × Nat) : readSpan (coupleToString (toSpan p)) = some (toSpan p) := by
+  obtain ⟨a, b⟩ := p
+  unfold coupleToString toSpan intStr
+  simp only
+  split
+  · rename_i h
+    have hab : a = b := Int.ofNat.inj h
+    subst hab
+    have := dropWhile_all (· != '-') _ (digits_no_hyphen a) []
+    simp only [List.append_nil, List.dropWhile_nil] at this
+    unfold readSpan
+    rw [this.1]
+    simp [readNat_digits]
+  · have := dropWhile_all (· != '-') _ (digits_no_hyphen a) ('-' :: Nat.toDigits 10 b)
+    unfold readSpan
+    rw [this.1, this.2]
+    simp [List.dropWhile_cons, List.takeWhile_cons, readNat_digits]
+
+theorem mapM_readSpan : ∀ ps : List (Nat × Nat),
+    (ps.map fun p => coupleToString (toSpan p)).mapM readSpan = some (ps.map toSpan)
+  | [] => rfl
+  | p :: t => by
+    simp [List.mapM_cons, readSpan_couple p, mapM_readSpan t]
+
+/-! ### The cell -/
+
+theorem join_no_lt (ps : List (Nat × Nat)) (c : Char) (hc : c ∈ joinSpans (ps.map toSpan)) : c ≠ '<' ∧ c ≠ '_' := by
+  rcases join_chars ps c hc with h | rfl | rfl
+  · exact ⟨(wordCh_ne c h).2.2.1, (wordCh_ne c h).2.2.2⟩
+  · decide
+  · decide
+
+theorem render_tokens (W : Nat) (hW : 1 ≤ W) (p : Nat × Nat) (ps : List (Nat × Nat)) :
+    tokens (stripTags (renderCell W ((p :: ps).map toSpan))) =
+      (p :: ps).map fun q => coupleToString (toSpan q) := by
+  rw [← join_tokens]
+  generalize hs : joinSpans ((p :: ps).map toSpan) = s
+  have hne : s ≠ [] := hs ▸ join_ne_nil p ps
+  have hlt : '<' ∉ s := fun h => (join_no_lt (p :: ps) _ (hs ▸ h)).1 rfl
+  have hhead : ∀ x t, s = x :: t → x ≠ ' ' := fun x t e =>
+    (wordCh_ne x (join_head (p :: ps) x t (hs.trans e))).1
+  have hok : okSp true s = true := hs ▸ join_okSp (p :: ps) true
+  unfold renderCell enumerationToTxt
+  rw [hs]
+  have he : s.isEmpty = false := by cases s with | nil => exact absurd rfl hne | cons _ _ => rfl
+  simp only [he, Bool.false_eq_true, if_false]
+  split
+  · have := stripGo_append s [] hlt
+    simp only [List.append_nil, stripGo] at this
+    unfold stripTags
+    rw [this]
+  · have hsp := wrapContents_spdel W 3 hW s hhead
+    rw [stripTags_wrapped W s (fun l hl hc => hlt (hsp.mem _ (List.mem_flatten.mpr ⟨l, hl, hc⟩)))]
+    exact (tokens_spdel hsp hok).symm
+
+theorem render_ne_imported (W : Nat) (p : Nat × Nat) (ps : List (Nat × Nat)) :
+    renderCell W ((p :: ps).map toSpan) ≠ imported := by
+  generalize hs : joinSpans ((p :: ps).map toSpan) = s
+  have hne : s ≠ [] := hs ▸ join_ne_nil p ps
+  have hu : '_' ∉ s := fun h => (join_no_lt (p :: ps) _ (hs ▸ h)).2 rfl
+  unfold renderCell enumerationToTxt
+  rw [hs]
+  have he : s.isEmpty = false := by cases s with | nil => exact absurd rfl hne | cons _ _ => rfl
+  simp only [he, Bool.false_eq_true, if_false]
+  split
+  · intro e
+    exact hu (e ▸ by simp [imported_eq])
+  · simp [tagOpen_eq, imported_eq]
+
+theorem parse_render (W : Nat) (hW : 1 ≤ W) (ps : List (Nat × Nat)) :
+    parseCell (renderCell W (ps.map toSpan)) = some (ps.map toSpan) := by
+  cases ps with
+  | nil => simp [renderCell, enumerationToTxt, joinSpans, parseCell]
+  | cons p t =>
+    unfold parseCell
+    rw [if_neg (render_ne_imported W p t), render_tokens W hW p t]
+    simp only [List.map_cons, List.isEmpty_cons, Bool.false_eq_true, if_false]
+    exact mapM_readSpan (p :: t)
+
+theorem toSpan_of_nonneg (spans : List Span) (h : ∀ sp ∈ spans, 0 ≤ sp.1 ∧ 0 ≤ sp.2) :
+    (spans.map fun sp => (sp.1.toNat, sp.2.toNat)).map toSpan = spans := by
+  induction spans with
+  | nil => rfl
+  | cons sp t ih =>
+    have h1 := h sp (by simp)
+    simp only [List.map_cons, List.cons.injEq]
+    refine ⟨?_, ih fun x hx => h x (List.mem_cons_of_mem _ hx)⟩
+    obtain ⟨a, b⟩ := sp
+    simp only [toSpan, Int.ofNat_eq_natCast, Prod.mk.injEq]
+    exact ⟨Int.toNat_of_nonneg h1.1, Int.toNat_of_nonneg h1.2⟩
+
 end Paroxy.ReportCell
